@@ -1466,14 +1466,24 @@ struct GRun {
     ok: bool,
 }
 
-fn run_getopts_loop(raw: &str, args: &[String]) -> GRun {
+/// `direct`: the arguments are given to getopts as operands
+/// (`getopts SPEC o ARGS...`) instead of as positional parameters.
+fn run_getopts_loop(raw: &str, args: &[String], direct: bool) -> GRun {
     let quoted: Vec<String> = args.iter().map(|a| sh_quote(a)).collect();
-    let script = format!(
-        "set -- {}\nwhile getopts {} o; do args E \"$o\" \"${{OPTARG-<unset>}}\" \"$OPTIND\"; done\n\
-         shift $((OPTIND-1))\nargs R \"$@\"\n",
-        quoted.join(" "),
-        sh_quote(raw)
-    );
+    let script = if direct {
+        format!(
+            "while getopts {} o {}; do args E \"$o\" \"${{OPTARG-<unset>}}\" \"$OPTIND\"; done\nargs I \"$OPTIND\"\n",
+            sh_quote(raw),
+            quoted.join(" ")
+        )
+    } else {
+        format!(
+            "set -- {}\nwhile getopts {} o; do args E \"$o\" \"${{OPTARG-<unset>}}\" \"$OPTIND\"; done\n\
+             shift $((OPTIND-1))\nargs R \"$@\"\n",
+            quoted.join(" "),
+            sh_quote(raw)
+        )
+    };
     let o = run_virtual(&script);
     let mut events = vec![];
     let mut rest = None;
@@ -1491,6 +1501,11 @@ fn run_getopts_loop(raw: &str, args: &[String]) -> GRun {
                 events.push((t.args[1].clone(), optarg, (a, c)));
             }
             Some("R") => rest = Some(t.args[1..].to_vec()),
+            // explicit operands: what is left is what lies behind $OPTIND
+            Some("I") if t.args.len() == 2 => match t.args[1].parse::<usize>() {
+                Ok(i) if i >= 1 && i <= args.len() + 1 => rest = Some(args[i - 1..].to_vec()),
+                _ => ok = false,
+            },
             _ => ok = false,
         }
     }
@@ -1550,7 +1565,10 @@ fn emit_getopts(
     ops: &[String],
     spellings: &[Vec<String>],
 ) {
-    let runs: Vec<GRun> = spellings.iter().map(|v| run_getopts_loop(raw, v)).collect();
+    let mut runs: Vec<GRun> = spellings.iter().map(|v| run_getopts_loop(raw, v, false)).collect();
+    // the same vectors as explicit operands of getopts (never empty: with no
+    // operand getopts reads the positional parameters)
+    runs.extend(spellings.iter().filter(|v| !v.is_empty()).take(2).map(|v| run_getopts_loop(raw, v, true)));
     w.count(&format!("3:spellings{}", runs.len().min(8)));
     w.count(if raw.starts_with(':') { "3:silent" } else { "3:verbose" });
     let n_known = getopts_table(raw, &[]).len();
@@ -1698,6 +1716,460 @@ fn getopts_stream(w: &mut CasesWriter, rng: &mut Rng, n: usize) {
             continue;
         }
         emit_getopts(w, &raw, &unknown, &os, missing, &ops, &spellings);
+    }
+}
+
+// ---------------------------------------------------------------------------
+// stream 4: kill's own parser, through yash_builtin::kill::syntax::parse
+// ---------------------------------------------------------------------------
+
+const KILL_TOKENS: [&str; 56] = [
+    "-s", "-n", "-l", "-v", "-lv", "-vl", "-ll", "--", "-", "TERM", "term", "SIGTERM", "sigint", "9", "0",
+    "-9", "-TERM", "-term", "-int", "-stop", "-sTERM", "-sterm", "-n9", "-s9", "-sSIGINT", "-stopx",
+    "-lost", "-vtalrm", "-LOST", "-Vtalrm", "-lx", "-vs", "-ls", "-x", "--foo", "--9", "-+9", "123", "%1",
+    "-1", "", "-siglost", "-sigvtalrm", "-99999999999", "+5", "-l9", "-lTERM", "-nterm", "-sl", "-segv",
+    "-nINT", "-vv", "foo", "-sfoo", "-0", "-SIGlost",
+];
+
+fn kill_stream(w: &mut CasesWriter, rng: &mut Rng, exhaustive_len: usize, random: usize) {
+    use yash_builtin::kill::syntax::{Error as KErr, parse as kill_parse, parse_signal};
+    use yash_builtin::kill::Command as KCommand;
+    use yash_env::system::Signals;
+    use yash_env::system::r#virtual::VirtualSystem;
+    let env = yash_env::Env::new_virtual();
+    let table: Vec<String> = <VirtualSystem as Signals>::NAMED_SIGNALS
+        .iter()
+        .filter_map(|(n, v)| v.map(|v| format!("({}, {})", coq::s(n), coq::z(v.as_raw() as i128))))
+        .collect();
+    let table = coq::list(&table);
+    let term = VirtualSystem::SIGTERM.as_raw() as i128;
+    let emit = |w: &mut CasesWriter, args: &[String], stream: &str| {
+        let fields: Vec<Field> = args.iter().map(|a| Field::dummy(a.clone())).collect();
+        let r = catch_unwind(AssertUnwindSafe(|| kill_parse(&env, fields)));
+        let (term_r, human, class) = match &r {
+            Err(_) => ("None".to_string(), "PANIC".to_string(), "panic"),
+            Ok(Ok(KCommand::Send { signal, signal_origin, targets })) => {
+                let t: Vec<String> = targets.iter().map(|f| coq::s(&f.value)).collect();
+                (
+                    format!(
+                        "(Some (KOk (KSend {} {} {})))",
+                        coq::z(*signal as i128),
+                        coq::opt(signal_origin.as_ref().map(|f| coq::s(&f.value))),
+                        coq::list(&t)
+                    ),
+                    format!("Send {} {:?}", signal, targets.iter().map(|f| &f.value).collect::<Vec<_>>()),
+                    "send",
+                )
+            }
+            Ok(Ok(KCommand::Print { signals, verbose })) => {
+                let t: Vec<String> = signals.iter().map(|f| coq::s(&f.value)).collect();
+                (
+                    format!("(Some (KOk (KPrint {} {})))", coq::list(&t), coq::b(*verbose)),
+                    format!("Print v={} {:?}", verbose, signals.iter().map(|f| &f.value).collect::<Vec<_>>()),
+                    "print",
+                )
+            }
+            Ok(Err(e)) => {
+                let t = match e {
+                    KErr::UnknownOption(f) => format!("(KUnknownOption {})", coq::s(&f.value)),
+                    KErr::ConflictingOptions { signal_arg, list_option_name, list_option_location } => format!(
+                        "(KConflicting {} {} {})",
+                        coq::s(&signal_arg.value),
+                        coq::n(*list_option_name as u64),
+                        coq::s(&loc_text(list_option_location))
+                    ),
+                    KErr::MissingSignal { signal_option_name, signal_option_location } => format!(
+                        "(KMissingSignal {} {})",
+                        coq::n(*signal_option_name as u64),
+                        coq::s(&loc_text(signal_option_location))
+                    ),
+                    KErr::MultipleSignals(a, b) => format!("(KMultiple {} {})", coq::s(&a.value), coq::s(&b.value)),
+                    KErr::InvalidSignal(f) => format!("(KInvalidSignal {})", coq::s(&f.value)),
+                    KErr::MissingTarget => "KMissingTarget".to_string(),
+                    other => panic!("kill: error outside the non-portable model: {other:?}"),
+                };
+                (format!("(Some (KErr {}))", t), format!("Err {e}"), "error")
+            }
+            Ok(Ok(other)) => panic!("kill: unknown command variant {other:?}"),
+        };
+        // the open finding F42: -SIGNAL whose lower-case name starts with l or v
+        let known = args.first().is_some_and(|f| {
+            let mut c = f.chars();
+            c.next() == Some('-')
+                && matches!(c.next(), Some('l' | 'v'))
+                && !f[1..].chars().all(|x| x == 'l' || x == 'v')
+                && parse_signal(&env.system, &f[1..], true).is_some()
+        });
+        w.count(&format!("4:{class}"));
+        if known {
+            w.count("4:known-lv-cluster");
+        }
+        let term_c = format!("(CKill {} {} {} {})", table, coq::z(term), args_coq(args), term_r);
+        let json = format!(
+            "{{\"stream\":{},\"builtin\":\"kill::syntax::parse\",\"args\":{},\"result\":{}}}",
+            json_str(stream),
+            json_str_list(args),
+            json_str(&human)
+        );
+        let tags: &[&str] = if known { &["C20-kill-lv-cluster"] } else { &[] };
+        let key = if args.len() >= 2 { Some(format!("kill|{args:?}")) } else { None };
+        w.push(&term_c, &json, tags, key);
+    };
+    // corpus: the finding, its equivalents, and `--foo`
+    for v in [
+        vec!["-vtalrm", "1"],
+        vec!["-VTALRM", "1"],
+        vec!["-s", "vtalrm", "1"],
+        vec!["-lost", "1"],
+        vec!["--foo", "1"],
+        vec!["-s", "TERM", "--", "-1"],
+        vec!["-stop", "1"],
+        vec!["-l", "-v", "--", "-9"],
+        vec!["-lvls", "TERM"],
+    ] {
+        emit(w, &strings(&v), "4-corpus");
+    }
+    let mut idx: Vec<usize> = vec![];
+    loop {
+        let v: Vec<String> = idx.iter().map(|&i| KILL_TOKENS[i].to_string()).collect();
+        emit(w, &v, "4-exhaustive");
+        let mut k = idx.len();
+        loop {
+            if k == 0 {
+                idx = vec![0; idx.len() + 1];
+                break;
+            }
+            k -= 1;
+            if idx[k] + 1 < KILL_TOKENS.len() {
+                idx[k] += 1;
+                for j in k + 1..idx.len() {
+                    idx[j] = 0;
+                }
+                break;
+            }
+        }
+        if idx.len() > exhaustive_len {
+            break;
+        }
+    }
+    for k in 0..random {
+        let mut r = rng.fork(0x4000_0000 + k as u64);
+        let n = 1 + r.below(5);
+        let v: Vec<String> = (0..n).map(|_| r.pick(&KILL_TOKENS).to_string()).collect();
+        emit(w, &v, "4-random");
+    }
+}
+
+// ---------------------------------------------------------------------------
+// stream 5: set's own parser, through yash_builtin::set::syntax::parse
+// ---------------------------------------------------------------------------
+
+const SET_LETTERS: [char; 14] = ['a', 'C', 'e', 'f', 'm', 'n', 'u', 'v', 'x', 'b', 'c', 'i', 's', 'Z'];
+const SET_NAMES: [&str; 30] = [
+    "errexit", "noerrexit", "nounset", "unset", "noglob", "glob", "xtrace", "verbose", "allexport",
+    "noclobber", "clobber", "errex", "nounse", "notify", "monitor", "vi", "log", "nolog", "pipefail",
+    "err-exit", "ERREXIT", "err_exit", "lo", "no", "nosuchoption", "cmdline", "interactive", "", "e",
+    "noxtrace",
+];
+
+fn set_stream(w: &mut CasesWriter, rng: &mut Rng, n_spell: usize, n_raw: usize) {
+    use yash_builtin::set::Command as SCommand;
+    use yash_builtin::set::syntax::{Error as SErr, parse as set_parse};
+    use yash_env::option::{FromStrError, Option as ShOpt, State, canonicalize, parse_long, parse_short};
+    let on = |s: State| s == State::On;
+    let optname = |o: ShOpt| format!("{o:?}");
+    // the tables
+    let sht: Vec<String> = SET_LETTERS
+        .iter()
+        .chain(['-', '+', 'o', '='].iter())
+        .filter(|c| **c != 'o')
+        .map(|&c| {
+            let v = parse_short(c).map(|(o, st)| {
+                format!("({}, {}, {})", coq::s(&optname(o)), coq::b(on(st)), coq::b(o.is_modifiable()))
+            });
+            format!("({}, {})", coq::n(c as u64), coq::opt(v))
+        })
+        .collect();
+    let raw_tokens: Vec<&str> = vec![
+        "-e", "+e", "-eu", "+eu", "-o", "+o", "-eo", "-oerrexit", "+onounset", "--errexit", "++errexit", "--",
+        "-", "x", "-Z", "-eZ", "-c", "-i", "-s", "--lo", "--no", "--nosuchoption", "++", "--cmdline",
+        "-ocmdline", "-+", "+-", "-e-", "+", "-ovi", "-oe",
+    ];
+    let mut all_names: Vec<&str> = SET_NAMES.to_vec();
+    for t in &raw_tokens {
+        if !all_names.contains(t) {
+            all_names.push(t);
+        }
+    }
+    let lt: Vec<String> = all_names
+        .iter()
+        .map(|n| {
+            let r = match parse_long(&canonicalize(n)) {
+                Ok((o, st)) => format!("(LOk {} {} {})", coq::s(&optname(o)), coq::b(on(st)), coq::b(o.is_modifiable())),
+                Err(FromStrError::NoSuchOption) => "LNoSuch".to_string(),
+                Err(FromStrError::Ambiguous) => "LAmbiguous".to_string(),
+            };
+            format!("({}, {})", coq::s(n), r)
+        })
+        .collect();
+    let (sht, lt) = (coq::list(&sht), coq::list(&lt));
+    let run = |args: &[String]| -> (Option<String>, String) {
+        let fields: Vec<Field> = args.iter().map(|a| Field::dummy(a.clone())).collect();
+        match catch_unwind(AssertUnwindSafe(|| set_parse(fields, State::Off))) {
+            Err(_) => (None, "PANIC".into()),
+            Ok(Ok(SCommand::PrintVariables)) => (Some("SPrintVariables".into()), "PrintVariables".into()),
+            Ok(Ok(SCommand::PrintOptionsHumanReadable)) => (Some("SPrintHuman".into()), "PrintOptions".into()),
+            Ok(Ok(SCommand::PrintOptionsMachineReadable)) => (Some("SPrintMachine".into()), "PrintOptions(+o)".into()),
+            Ok(Ok(SCommand::Modify { options, positional_params })) => {
+                let os: Vec<String> =
+                    options.iter().map(|(o, st)| format!("({}, {})", coq::s(&optname(*o)), coq::b(on(*st)))).collect();
+                let p = positional_params.as_ref().map(|v| {
+                    let l: Vec<String> = v.iter().map(|f| coq::s(&f.value)).collect();
+                    coq::list(&l)
+                });
+                (
+                    Some(format!("(SModify {} {})", coq::list(&os), coq::opt(p))),
+                    format!(
+                        "Modify {:?} {:?}",
+                        options,
+                        positional_params.as_ref().map(|v| v.iter().map(|f| f.value.clone()).collect::<Vec<_>>())
+                    ),
+                )
+            }
+            Ok(Err(e)) => {
+                let t = match &e {
+                    SErr::UnknownShortOption(c, f) => format!("(SUnknownShort {} {})", coq::n(*c as u64), coq::s(&f.value)),
+                    SErr::UnknownLongOption(f) => format!("(SUnknownLong {})", coq::s(&f.value)),
+                    SErr::AmbiguousLongOption(f) => format!("(SAmbiguousLong {})", coq::s(&f.value)),
+                    SErr::MissingOptionArgument(f) => format!("(SMissingArg {})", coq::s(&f.value)),
+                    SErr::UnmodifiableShortOption(c, f) => format!("(SUnmodShort {} {})", coq::n(*c as u64), coq::s(&f.value)),
+                    SErr::UnmodifiableLongOption(f) => format!("(SUnmodLong {})", coq::s(&f.value)),
+                    other => panic!("set: error outside the non-portable model: {other:?}"),
+                };
+                (Some(format!("(SErr {})", t)), format!("Err {e}"))
+            }
+        }
+    };
+    // everything that denotes (option, new state): (sign, letter) and (sign, name)
+    let mut shorts: Vec<(ShOpt, bool, bool, char)> = vec![]; // opt, new state, negate, letter
+    for &c in &SET_LETTERS {
+        if let Some((o, st)) = parse_short(c) {
+            if o.is_modifiable() && o != ShOpt::Portable {
+                shorts.push((o, on(st), false, c));
+                shorts.push((o, !on(st), true, c));
+            }
+        }
+    }
+    let mut longs: Vec<(ShOpt, bool, bool, &str)> = vec![];
+    for n in SET_NAMES {
+        if let Ok((o, st)) = parse_long(&canonicalize(n)) {
+            if o.is_modifiable() && o != ShOpt::Portable {
+                longs.push((o, on(st), false, n));
+                longs.push((o, !on(st), true, n));
+            }
+        }
+    }
+    for k in 0..n_spell {
+        let mut r = rng.fork(0x5000_0000 + k as u64);
+        let no = r.below(5);
+        let os: Vec<(ShOpt, bool)> = (0..no)
+            .map(|_| {
+                if r.chance(1, 2) {
+                    let x = r.pick(&shorts);
+                    (x.0, x.1)
+                } else {
+                    let x = r.pick(&longs);
+                    (x.0, x.1)
+                }
+            })
+            .collect();
+        let params: Option<Vec<String>> = match r.below(4) {
+            0 => None,
+            1 => Some(vec![]),
+            _ => Some((0..1 + r.below(3)).map(|_| r.pick(&["x", "-y", "+z", "--", "-", "", "-o"]).to_string()).collect()),
+        };
+        if os.is_empty() && params.is_none() {
+            continue;
+        }
+        let mut spellings: Vec<Vec<String>> = vec![];
+        for _ in 0..16 {
+            if spellings.len() >= 4 {
+                break;
+            }
+            let mut v: Vec<String> = vec![];
+            // (sign of the open group of letters, if the last field is one)
+            let mut open: Option<bool> = None;
+            for (o, st) in &os {
+                let ss: Vec<&(ShOpt, bool, bool, char)> = shorts.iter().filter(|x| x.0 == *o && x.1 == *st).collect();
+                let ls: Vec<&(ShOpt, bool, bool, &str)> =
+                    longs.iter().filter(|x| x.0 == *o && x.1 == *st && !x.3.is_empty()).collect();
+                let use_short = !ss.is_empty() && (ls.is_empty() || r.chance(1, 2));
+                if use_short {
+                    let x = r.pick(&ss);
+                    let sign = if x.2 { '+' } else { '-' };
+                    if open == Some(x.2) && r.chance(1, 2) {
+                        v.last_mut().unwrap().push(x.3);
+                    } else {
+                        v.push(format!("{sign}{}", x.3));
+                        open = Some(x.2);
+                    }
+                } else {
+                    let x = r.pick(&ls);
+                    let sign = if x.2 { '+' } else { '-' };
+                    match r.below(4) {
+                        0 => {
+                            v.push(format!("{sign}{sign}{}", x.3));
+                            open = None;
+                        }
+                        1 => {
+                            if open == Some(x.2) && r.chance(1, 2) {
+                                v.last_mut().unwrap().push_str(&format!("o{}", x.3));
+                            } else {
+                                v.push(format!("{sign}o{}", x.3));
+                            }
+                            open = None;
+                        }
+                        _ => {
+                            if open == Some(x.2) && r.chance(1, 2) {
+                                v.last_mut().unwrap().push('o');
+                            } else {
+                                v.push(format!("{sign}o"));
+                            }
+                            v.push(x.3.to_string());
+                            open = None;
+                        }
+                    }
+                }
+            }
+            if let Some(p) = &params {
+                let first_needs = p.first().is_none_or(|f| {
+                    f == "--" || f == "-" || ((f.starts_with('-') || f.starts_with('+')) && f.len() >= 2)
+                });
+                if first_needs || r.chance(1, 3) {
+                    v.push(if r.chance(1, 2) { "--".into() } else { "-".into() });
+                }
+                v.extend(p.iter().cloned());
+            }
+            // `set -o` / `set +o` alone print the options instead
+            if v.len() == 1 && (v[0] == "-o" || v[0] == "+o") {
+                continue;
+            }
+            if !spellings.contains(&v) && !v.is_empty() {
+                spellings.push(v);
+            }
+        }
+        if spellings.is_empty() {
+            continue;
+        }
+        let mut terms = vec![];
+        let mut humans = vec![];
+        let mut panicked = false;
+        for v in &spellings {
+            let (t, h) = run(v);
+            match t {
+                Some(t) => terms.push(coq::pair(&args_coq(v), &t)),
+                None => panicked = true,
+            }
+            humans.push(format!("{:?} -> {}", v, h));
+        }
+        w.count(&format!("5:spellings{}", spellings.len()));
+        let os_coq: Vec<String> =
+            os.iter().map(|(o, st)| format!("({}, {})", coq::s(&optname(*o)), coq::b(*st))).collect();
+        let p_coq = coq::opt(params.as_ref().map(|p| args_coq(p)));
+        let term = if panicked {
+            format!("(CSetRaw {} {} {} None)", sht, lt, args_coq(&spellings[0]))
+        } else {
+            format!("(CSetSpell {} {} {} {} {})", sht, lt, coq::list(&os_coq), p_coq, coq::list(&terms))
+        };
+        let json = format!(
+            "{{\"stream\":\"5-spell\",\"builtin\":\"set::syntax::parse\",\"options\":{},\"params\":{},\"spellings\":{}}}",
+            json_str(&format!("{os:?}")),
+            json_str(&format!("{params:?}")),
+            json_str_list(&humans)
+        );
+        let key = if spellings.len() >= 2 { Some(format!("set|{os:?}|{params:?}")) } else { None };
+        w.push(&term, &json, &[], key);
+    }
+    // raw vectors (malformed ones included): lock-step with the model
+    let tokens: Vec<String> = all_names.iter().map(|s| s.to_string()).collect();
+    for k in 0..n_raw {
+        let mut r = rng.fork(0x5100_0000 + k as u64);
+        let n = r.below(5);
+        let v: Vec<String> = (0..n).map(|_| r.pick(&tokens).clone()).collect();
+        let (t, h) = run(&v);
+        w.count(if h.starts_with("Err") { "5:raw-error" } else { "5:raw-ok" });
+        let term = format!("(CSetRaw {} {} {} {})", sht, lt, args_coq(&v), coq::opt(t));
+        let json = format!(
+            "{{\"stream\":\"5-raw\",\"builtin\":\"set::syntax::parse\",\"args\":{},\"result\":{}}}",
+            json_str_list(&v),
+            json_str(&h)
+        );
+        let key = if v.len() >= 2 { Some(format!("setraw|{v:?}")) } else { None };
+        w.push(&term, &json, &[], key);
+    }
+}
+
+// ---------------------------------------------------------------------------
+// stream 6: typeset's own long-option rule, through typeset::syntax::parse
+// ---------------------------------------------------------------------------
+
+fn typeset_stream(w: &mut CasesWriter, rng: &mut Rng, n: usize) {
+    use yash_builtin::typeset::syntax::{ALL_OPTIONS, OptionSpec as TSpec, ParseError as TErr, parse as tparse};
+    let run = |specs: &[TSpec<'_>], name: &str| -> String {
+        let args = vec![Field::dummy(format!("--{name}"))];
+        match tparse(specs, Mode::with_extensions(), args) {
+            Ok((options, _)) if options.len() == 1 => {
+                let i = specs.iter().position(|s| std::ptr::eq(s, options[0].spec)).unwrap();
+                format!("(TFound {})", coq::nat(i))
+            }
+            Err(TErr::UnknownLongOption(_)) => "TUnknown".into(),
+            Err(TErr::AmbiguousLongOption(_)) => "TAmbiguous".into(),
+            other => panic!("typeset: unexpected result {other:?}"),
+        }
+    };
+    let emit = |w: &mut CasesWriter, real: bool, specs: &[TSpec<'_>], name: &str| {
+        let r = run(specs, name);
+        let t: Vec<String> = specs.iter().map(|s| sp(None, Some(s.long), false, false).coq()).collect();
+        let term = format!("(CTypesetLong {} {} {} {})", coq::b(real), coq::list(&t), coq::s(name), r);
+        let longs: Vec<&str> = specs.iter().map(|s| s.long).collect();
+        let json = format!(
+            "{{\"stream\":\"6\",\"builtin\":\"typeset::syntax::parse\",\"real_table\":{},\"longs\":{},\"name\":{},\"result\":{}}}",
+            real,
+            json_str(&format!("{longs:?}")),
+            json_str(name),
+            json_str(&r)
+        );
+        w.count(if real { "6:real-table" } else { "6:synthetic-table" });
+        w.push(&term, &json, &[], Some(format!("typeset|{real}|{longs:?}|{name}")));
+    };
+    // the real table: every prefix of every name, and some non-names
+    for s in ALL_OPTIONS {
+        let cs: Vec<char> = s.long.chars().collect();
+        for k in 1..=cs.len() {
+            let p: String = cs[..k].iter().collect();
+            emit(w, true, ALL_OPTIONS, &p);
+        }
+    }
+    for nme in ["x", "exports", "un", "printx", "re", "r"] {
+        emit(w, true, ALL_OPTIONS, nme);
+    }
+    // synthetic tables where a name is a prefix of another
+    let pool = ["print", "printx", "pri", "export", "ex", "unexport", "p", "global", "glob"];
+    for k in 0..n {
+        let mut r = rng.fork(0x6000_0000 + k as u64);
+        let m = 1 + r.below(4);
+        let specs: Vec<TSpec<'static>> = (0..m)
+            .map(|i| TSpec { short: (b'a' + i as u8) as char, long: *r.pick(&pool), attr: None })
+            .collect();
+        let name = match r.below(3) {
+            0 => r.pick(&pool).to_string(),
+            1 => {
+                let l = r.pick(&pool);
+                l[..1 + r.below(l.len())].to_string()
+            }
+            _ => r.pick(&["x", "pr", "e", "g", "printxy"]).to_string(),
+        };
+        emit(w, false, &specs, &name);
     }
 }
 
@@ -2117,6 +2589,20 @@ fn main() {
         shell_stream(&mut w, &mut r, args.scale(3, 6), PORTABLE);
         bespoke_stream(&mut w);
         cli_stream(&mut w);
+        let mut r6 = rng.fork(0x6000_0000);
+        typeset_stream(&mut w, &mut r6, args.scale(150, 1500));
+        let mut r5 = rng.fork(0x5000_0000);
+        if search {
+            set_stream(&mut w, &mut r5, 1000, 2000);
+        } else {
+            set_stream(&mut w, &mut r5, args.scale(150, 4000), args.scale(250, 6000));
+        }
+        let mut r4 = rng.fork(0x4000_0000);
+        if search {
+            kill_stream(&mut w, &mut r4, 1, 3000);
+        } else {
+            kill_stream(&mut w, &mut r4, args.scale(1, 2), args.scale(300, 8000));
+        }
         let mut r3 = rng.fork(0x3000_0000);
         getopts_stream(&mut w, &mut r3, if search { 1500 } else { args.scale(300, 3000) });
     }
